@@ -63,7 +63,7 @@ type spec struct {
 	dir      string
 	only     map[string]bool
 	yields   bool
-	noaccess bool // no plain-access instrumentation (the hot sequential packages of the yields build)
+	pkgonly  bool // plain-access instrumentation for reassigned package variables only (the hot sequential packages of the yields build)
 }
 
 func main() {
@@ -98,12 +98,12 @@ func main() {
 			{dir: *repo + "/pkg/engine"},
 			{dir: *repo + "/pkg/engine/uci"},
 			{dir: *repo + "/pkg/search/searchctl"},
-			{dir: *repo + "/pkg/search", yields: true, noaccess: true},
-			{dir: *repo + "/pkg/eval", yields: true, noaccess: true},
-			{dir: *repo + "/pkg/board", yields: true, noaccess: true},
-			{dir: *repo + "/cmd/sargon/sargon", yields: true, noaccess: true},
-			{dir: *repo + "/cmd/turochamp/turochamp", yields: true, noaccess: true},
-			{dir: *repo + "/cmd/bernstein/bernstein", yields: true, noaccess: true},
+			{dir: *repo + "/pkg/search", yields: true, pkgonly: true},
+			{dir: *repo + "/pkg/eval", yields: true, pkgonly: true},
+			{dir: *repo + "/pkg/board", yields: true, pkgonly: true},
+			{dir: *repo + "/cmd/sargon/sargon", yields: true, pkgonly: true},
+			{dir: *repo + "/cmd/turochamp/turochamp", yields: true, pkgonly: true},
+			{dir: *repo + "/cmd/bernstein/bernstein", yields: true, pkgonly: true},
 			{dir: *root + "/third_party/stdlib/pkg/util/iox", only: only("closer.go")},
 			{dir: *root + "/third_party/stdlib/pkg/util/contextx"},
 		}
@@ -131,8 +131,15 @@ func main() {
 				fmt.Println("typecheck (continuing):", err)
 			}
 			var instr map[types.Object]bool
-			if *access && !sp.noaccess {
+			if *access {
 				instr = analyseIdents(files, info, tpkg)
+				if sp.pkgonly {
+					for o := range instr {
+						if v := o.(*types.Var); v.Pkg() == nil || v.Parent() != v.Pkg().Scope() {
+							delete(instr, o)
+						}
+					}
+				}
 			}
 			for i, f := range files {
 				if len(sp.only) > 0 && !sp.only[filepath.Base(names[i])] {
@@ -141,8 +148,8 @@ func main() {
 				f.Comments = nil
 				f.Doc = nil
 				wrapped := 0
-				if *access && !sp.noaccess {
-					wrapped = instrumentAccesses(fset, f, info, instr)
+				if *access {
+					wrapped = instrumentAccesses(fset, f, info, instr, sp.pkgonly)
 				}
 				changed, errs := rewriteFile(fset, f, info, sp.yields)
 				changed = changed || wrapped > 0
